@@ -1,5 +1,5 @@
 (* C14 - flag x ignores pattern whitespace outside character classes. *)
-From RX Require Import Base.Prelude Spec.Parse Model.Compiler Proofs.SmallFacts.
+From RX Require Import Base.Prelude Spec.Parse Model.Compiler Proofs.SmallFacts Base.Prelude Spec.Syntax Spec.Sem Model.Api Proofs.GroupGrammar Proofs.GroupSpec.
 Local Open Scope N_scope.
 
 (* compile with flag x is compile without it on the stripped pattern: the program (operation tree,
@@ -29,6 +29,27 @@ Example C14_ex : spec_strip [32;97;32;91;32;93;92;32;110;12] 0 false = [97;91;32
                  /\ never_negative [32;97;32;91;32;93;92;32;110;12] 0 false = true.
 Proof. vm_compute. split; reflexivity. Qed.
 
+(* the property from the strings: with flag x the pattern text w - white space anywhere - is compiled,
+   and parsed by the specification, as the text with the white space outside classes removed; if that
+   text is a pattern of the grammar of Proofs/GroupGrammar.v, the model's verdict on every input is the
+   specification's for the stripped pattern *)
+Theorem C14_group_grammar_x_end_to_end :
+  forall xpath a w fls input,
+    ok_a xpath a = true -> existsb (N.eqb 59) fls = false -> (N.of_nat (length input) < umax)%N ->
+    strip_ws w 0%Z false = show_a a ->
+    match spec_flags xpath fls with
+    | Valid sf =>
+        s_q sf = false -> s_x sf = true ->
+        exists re r, regex_new true xpath w fls = Ok re /\ spec_parse xpath (strip_ws w 0%Z false) = Valid r
+                     /\ is_match re input = Ok (spec_is_match sf input r)
+    | _ => True
+    end.
+Proof. exact grammar_x_end_to_end. Qed.
+
+Example C14_x_text : strip_ws [97; 32; 98; 9; 124; 10; 99]%N 0%Z false = show_a (ACons (BEnd [97; 98]%N) (AOne (BEnd [99%N]))).
+Proof. reflexivity. Qed.
+
 Print Assumptions C14_same.
 Print Assumptions C14_strip.
 Print Assumptions C14_keeps.
+Print Assumptions C14_group_grammar_x_end_to_end.
